@@ -511,11 +511,11 @@ fn gen_sop(r: &mut Rng, cur_len: usize) -> SOp {
         3 => SOp::FromBytes(r.dna(*r.clone().pick(&lens), a)),
         4 => {
             let n = *r.pick(&lens);
-            SOp::FromDnaString((0..n).map(|_| *r.pick(b"ACGTacgtNRYn-. ")).collect())
+            SOp::FromDnaString((0..n).map(|_| *r.pick(b"ACGTacgtNRYn-. SWDswd37#$")).collect())
         }
         5 => {
             let n = *r.pick(&lens);
-            SOp::FromAcgtBytes((0..n).map(|_| *r.pick(b"ACGTacgtNRYn-. ")).collect())
+            SOp::FromAcgtBytes((0..n).map(|_| *r.pick(b"ACGTacgtNRYn-. SWDswd37#$")).collect())
         }
         6 | 7 | 8 => SOp::Push(*r.pick(a)),
         9 | 10 | 11 => SOp::Extend(r.dna(*r.clone().pick(&lens), a)),
